@@ -31,7 +31,7 @@ pub fn spec() -> PropSpec<BuildCase> {
         .boxed()
     },
     check,
-    cases: |tier| tier.pick(40_000, 800_000),
+    cases: |tier| tier.pick(60_000, 1_200_000),
     rule: "generated worlds over all import forms, media types by extension and by content-type header, file/http/https/data/node/npm schemes, redirects, loader-followed redirects, externals, missing and erroring entries; 1-3 roots, 0-2 configured type imports, all three graph kinds, all build options of the quantifier; non-trivial = >= 2 modules with a followed edge AND (a specifier imported both statically and dynamically, or a target reached as code and as types, or an edge behind a redirect, or a static import inside a dynamic branch, or a non-default graph kind / option); distinct = distinct case JSON",
     assumptions: &[
       "same-attribute proviso by construction; a source-map URL target is not requested in any other way; no redirect cycles (C14/C03 own those)",
